@@ -23,6 +23,7 @@ import (
 	"github.com/teleport-network/teleport/app"
 	aggtypes "github.com/teleport-network/teleport/x/aggregate/types"
 	rvestingtypes "github.com/teleport-network/teleport/x/rvesting/types"
+	"github.com/teleport-network/teleport/x/xibc/exported"
 
 	"verif/harness/core"
 	ac "verif/harness/props/aggcommon"
@@ -357,7 +358,7 @@ func (h *hist) setup() bool {
 	if h.rng.Intn(2) == 0 && strings.HasPrefix(h.variant, "default") {
 		h.variant = "populated"
 		k := h.n.App.XIBCKeeper.ClientKeeper
-		for i, ct := range clientTypes {
+		for i, ct := range []string{exported.Tendermint, exported.BSC, exported.ETH, exported.TSS, exported.TSS, exported.Tendermint} {
 			cs, cons, _ := genClient(h.rng, ct, false)
 			err, c := catchStack(func() error { return k.CreateClient(h.n.Ctx(), chainPool[i], cs, cons) })
 			if err != nil || c != nil {
